@@ -379,6 +379,10 @@ class Server:
             # If timeout is negative, it doesn't wait.
             # This may raise an exception originating from RemoteException
         except concurrent.futures.TimeoutError as e:
+            if fut.done() and not fut.cancelled() and fut.exception() is e:
+                # The wait did not time out: this is the request's own failure,
+                # a `TimeoutError` raised by a worker.
+                raise
             fut.cancel()
             t0 = fut.data['t0']
             fut.data['t_cancelled'] = perf_counter()
@@ -668,7 +672,11 @@ class AsyncServer:
     async def _wait_for_result(self, fut: asyncio.Future):
         try:
             await asyncio.wait_for(fut, fut.data['deadline'] - perf_counter())
-        except (asyncio.TimeoutError, TimeoutError):
+        except (asyncio.TimeoutError, TimeoutError) as e:
+            if fut.done() and not fut.cancelled() and fut.exception() is e:
+                # The wait did not time out: this is the request's own failure,
+                # a `TimeoutError` raised by a worker.
+                raise
             t0 = fut.data['t0']
             fut.cancel()
             fut.data['t_cancelled'] = perf_counter()  # time of abandonment
